@@ -32,6 +32,16 @@ def enc_argsp(a):
         return 'LE/%s/%d' % (wire(a[1]), 1 if a[2] else 0)
     return 'U'
 
+def has_unmodelled(ctx):
+    """argument parsers the Lean context type cannot express (such contexts run through the property oracles only):
+    ['LVA', argspec] = the legacy verbatim parser for a \\verb-like macro WITH leading standard arguments"""
+    if ctx == 'default':
+        return False
+    bad = lambda a: a is not None and a[0] == 'LVA'
+    if ctx.get('provide'):
+        return True
+    return any(bad(a) for _, a in ctx['macros']) or any(bad(a) for _, a, _ in ctx['envs']) or any(bad(a) for _, a in ctx['specials'])
+
 def enc_ctx(ctx):
     if ctx == 'default':
         return '@default'
@@ -73,6 +83,8 @@ def make_spec(cls, name, argsp, **kw):
         return cls(name, arguments_spec_list=make_argspec_list(argsp[1]), **kw)
     if argsp[0] == 'LV':
         return cls(name, args_parser=macrospec.VerbatimArgsParser(verbatim_arg_type='verb-macro'), **kw)
+    if argsp[0] == 'LVA':
+        return cls(name, args_parser=macrospec.VerbatimArgsParser(verbatim_arg_type='verb-macro', verbatim_argspec=argsp[1]), **kw)
     if argsp[0] == 'LE':
         if argsp[2]:
             ap = macrospec.VerbatimArgsParser(verbatim_arg_type='verbatim-environment', verbatim_environment_name=argsp[1], verbatim_argspec='[')
@@ -89,6 +101,8 @@ def make_db(ctx):
     if ctx == 'default':
         return latexwalker.get_default_latex_context_db()
     from pylatexenc.latexnodes import ParsingStateDeltaEnterMathMode
+    if ctx.get('provide'):
+        return make_extending_db(ctx)
     db = macrospec.LatexContextDb()
     db.add_context_category(
         'c',
@@ -103,6 +117,31 @@ def make_db(ctx):
             macrospec.EnvironmentSpec, '', ctx['ue'][0],
             **({'body_parsing_state_delta': ParsingStateDeltaEnterMathMode()} if ctx['ue'][1] else {})))
     return db
+
+def make_extending_db(ctx):
+    """a database with a \\newcommand-like macro: after `\\provide`, the macro ctx['provide'] = [name, argsp] is known
+    (ParsingStateDeltaExtendLatexContextDb).  ctx['how']: 'add_none' = first category added with an automatic name,
+    'extended' = obtained by extended_with() from a frozen base, 'named' = ordinary named category.  Not expressible in the
+    Lean context type (oracle only)."""
+    from pylatexenc import macrospec
+    pname, pargs = ctx['provide']
+    def after_provide(parsed_node, latex_walker):
+        return macrospec.ParsingStateDeltaExtendLatexContextDb(
+            extend_latex_context=dict(macros=[make_spec(macrospec.MacroSpec, pname, pargs)]))
+    specs = [macrospec.MacroSpec('provide', '', make_after_parsing_state_delta=after_provide)] + \
+        [make_spec(macrospec.MacroSpec, n, a) for n, a in ctx['macros']]
+    base = macrospec.LatexContextDb()
+    base.add_context_category('base', macros=[macrospec.MacroSpec('textbf', '{')],
+                              specials=[make_spec(macrospec.SpecialsSpec, n, a) for n, a in ctx['specials']])
+    if ctx.get('um') is not None:
+        base.set_unknown_macro_spec(make_spec(macrospec.MacroSpec, '', ctx['um']))
+    how = ctx.get('how', 'add_none')
+    if how == 'extended':
+        base.freeze()
+        return base.extended_with(macros=specs)
+    base.add_context_category(None if how == 'add_none' else 'first', macros=specs, prepend=True)
+    base.freeze()
+    return base
 
 # ---------------------------------------------------------------- real objects -> JSON (fail closed)
 
@@ -174,6 +213,8 @@ def introspect_argsp(spec):
         if type(lp) is macrospec.VerbatimArgsParser or type(lp) is macrospec.LstListingArgsParser:
             if lp.verbatim_arg_type == 'verb-macro' and not lp.verbatim_argspec:
                 return ['LV']
+            if lp.verbatim_arg_type == 'verb-macro' and lp.verbatim_argspec in ('[', '{', '[{'):
+                return ['LVA', lp.verbatim_argspec]
             if lp.verbatim_arg_type == 'verbatim-environment' and lp.verbatim_argspec in ('', '['):
                 return ['LE', lp.verbatim_environment_name, lp.verbatim_argspec == '[']
         return ['U', 'legacy parser %r' % (lp,)]
